@@ -46,7 +46,7 @@ func RunServer(t *testing.T, sc sim.Scenario, prefixes []string, nontrivial func
 	// (it is counted under other-clause instead; C01/C03 report it themselves).
 	basic, c01 := false, false
 	for _, p := range probs {
-		if strings.HasPrefix(p.Sig, "C01/") || strings.HasPrefix(p.Sig, "C03/") {
+		if (strings.HasPrefix(p.Sig, "C01/") || strings.HasPrefix(p.Sig, "C03/")) && p.Sig != "C03/later-request-waits-below-limit" {
 			basic = true
 		}
 		if strings.HasPrefix(p.Sig, "C01/") {
@@ -57,7 +57,7 @@ func RunServer(t *testing.T, sc sim.Scenario, prefixes []string, nontrivial func
 		if basic && (p.Sig == "C06/not-work-conserving" || strings.HasPrefix(p.Sig, "C07/")) {
 			continue
 		}
-		if c01 && (p.Sig == "C03/record-answered-before-barrier" || p.Sig == "C03/later-request-delayed") {
+		if c01 && (p.Sig == "C03/record-answered-before-barrier" || p.Sig == "C03/later-request-delayed" || p.Sig == "C03/later-request-waits-below-limit") {
 			continue // attribution of outbound messages is not to be trusted in this scenario
 		}
 		for _, pre := range prefixes {
